@@ -79,6 +79,11 @@ def ev(t, env):
         v, m = ev(t["x"], env)
         lo, hi = t["lo"]["n"] / t["lo"]["d"], t["hi"]["n"] / t["hi"]["d"]
         return min(max(v, lo), hi) if v == v else v, max(m, abs(lo), abs(hi))
+    if op == "clipt":          # clip with a term as lower bound
+        v, m = ev(t["x"], env)
+        lo, _ = ev(t["lo"], env)
+        hi, _ = ev(t["hi"], env)
+        return min(max(v, lo), hi) if v == v else v, max(m, abs(lo))
     if op == "lse":
         vs = [ev(x, env) for x in t["xs"]]
         r = float(_lse([v for v, _ in vs]))
